@@ -235,6 +235,19 @@ class RandomPolicy:
         return self.rnd.choice(env)
 
 
+class HoldPolicy(RandomPolicy):
+    """random walk that completes gates whose name starts with `prefix` only when nothing else can be done: a
+    collaborator call that nobody waits for (an orphan) is then never completed and stays visible at the end"""
+
+    def __init__(self, seed, p_step=0.8, prefix='ev2'):
+        super().__init__(seed, p_step)
+        self.prefix = prefix
+
+    def choose(self, ex, opts):
+        rest = [o for o in opts if not (o[0] == 'fire' and str(o[1]).startswith(self.prefix))]
+        return super().choose(ex, rest or opts)
+
+
 class EagerPolicy:
     """step while anything is ready; at quiescence take env option number idx[i] (systematic enumeration)"""
 
